@@ -1,5 +1,5 @@
 (* C20 — the bundled IdP server and its store are safe under concurrent requests *)
-From Saml Require Import Base Concurrency ConcurrencyProofs.
+From Saml Require Import Base Concurrency ConcurrencyProofs ConcurrencyStore ConcurrencyStoreProofs.
 
 (* If the program regenerated from samlidp/*.go and identity_provider.go passes
    the discipline check (the obligation samlidp_discipline_ok in
@@ -25,9 +25,9 @@ Print Assumptions discipline_sound.
    the only holder: conflicting critical sections of the store never overlap,
    so each Get/Put/Delete/List takes effect atomically inside its critical
    section (List sees one snapshot because no writer can step while a reader
-   holds the mutex).  Full linearizability against the map specification
-   [sm_apply] (forward simulation with a ghost map) is NOT proved here; it is
-   checked on recorded concurrent histories by the harness (Wing-Gong search). *)
+   holds the mutex).  This is the statement inside the general lock/access
+   semantics; full linearizability against the map specification is
+   store_linearizable below. *)
 Theorem store_linearizable_partial :
   forall p eps, discipline_ok p eps = true ->
   forall threads codes,
@@ -39,6 +39,56 @@ Theorem store_linearizable_partial :
       (forall m t1 t2, hget (held_of st t1) m = Some true -> t1 <> t2 -> hget (held_of st t2) m = None).
 Proof. exact critical_sections_exclusive_l. Qed.
 Print Assumptions store_linearizable_partial.
+
+(* Linearizability of the store, in a dedicated semantics (ConcurrencyStore.v)
+   of n threads running Get / Put / Delete / List under the store's RWMutex with
+   the concrete map, a ghost abstract map and a ghost event trace.  For every
+   number of threads, every assignment of operations to them, every number of
+   reads the range loop of List makes and every schedule, from the zero-value
+   store: the operations in the order of their linearization points (the
+   map write of Put/Delete, the first map read of Get/List), with the results
+   recorded there, are a legal sequential history of the map specification
+   sm_apply; per thread the events are Inv o, Lin o r, Ret o (Some r) repeated,
+   i.e. each linearization point lies between invocation and return (real-time
+   order is respected) and the code returns the sequential result (a List that
+   keeps reading sees the snapshot of its first read, because no writer can
+   step while a reader holds the mutex); the concrete map is the abstract one. *)
+Theorem store_linearizable : forall extra ops sched,
+  let st := srun extra (sinit ops) sched in
+  let h := rev (lins (s_trace st)) in
+  sm_run (map fst h) [] = map snd h /\
+  (forall t, exists ph, tst (tevs t (s_trace st)) ph) /\
+  s_mem st = sm_final (map fst h) [].
+Proof. exact store_linearizable_l. Qed.
+Print Assumptions store_linearizable.
+
+(* The tie to the code: if the program regenerated from the Go source passes
+   store_projection_ok (obligation samlidp_store_projection_ok in
+   gen/SamlidpLocks.v, re-proved on every run), each MemoryStore method is,
+   action for action, the lock/access projection of the corresponding operation
+   of that semantics; the instruction path is the one the step function follows. *)
+Theorem store_projection_sound : forall p, store_projection_ok p = true ->
+  forall extra k v pre,
+    lookup_fn "MemoryStore.Get" p = Some (op_acts extra (SGet k)) /\
+    lookup_fn "MemoryStore.Put" p = Some (op_acts extra (SPut k v)) /\
+    lookup_fn "MemoryStore.Delete" p = Some (op_acts extra (SDel k)) /\
+    lookup_fn "MemoryStore.List" p = Some (op_acts extra (SList pre)).
+Proof. exact store_projection_sound_l. Qed.
+Print Assumptions store_projection_sound.
+
+Theorem store_path_follows_next : forall extra o,
+  exists rest, path extra o = PcAcq :: rest /\ chain extra o PcAcq rest.
+Proof. exact path_follows_next. Qed.
+Print Assumptions store_path_follows_next.
+
+(* non-vacuity: a concrete two-thread run *)
+Theorem store_run_example_ok :
+  let st := srun 2 (sinit [[SPut "k" "v"; SGet "k"]; [SList ""; SDel "k"]])
+                 [0; 1; 0; 1; 0; 0; 0; 0; 1; 1; 1; 1; 1; 0; 0; 0; 0; 1; 1; 1; 1; 1]%nat in
+  rev (lins (s_trace st)) = [(SPut "k" "v", RUnit); (SList "", RKeys ["k"]); (SGet "k", RVal (Some "v")); (SDel "k", RUnit)] /\
+  s_mem st = [].
+Proof. exact store_run_example. Qed.
+Print Assumptions store_run_example_ok.
 
 (* The pinned tree's defect (re-introduced by seeded/revert-F12), exhibited in
    the semantics: HandleIDPInitiated holds idpConfigMu shared and its callee
